@@ -135,6 +135,8 @@ class Canon:
 
     def cond(self, e, neg=False):
         k = e[0]
+        if k == "var" and len(e) > 2 and e[2] in getattr(self, "lets", {}):
+            return self.cond(self.lets[e[2]], neg)
         if k == "un" and e[1] == "Not":
             return self.cond(e[2], not neg)
         if k == "logic":
@@ -272,6 +274,7 @@ def tab_plc(ctx):
         if y[0] == "field" and is_var(y[1], "self") and y[2] == "width":
             names[n] = "W"
     c = Canon(names)
+    c.lets = {s2[1]: s2[3] for s2 in T.stmt_walk(sts) if s2[0] == "let" and not s2[2]}
     sk = skeleton(c, sts)
     ok = sk == REF_RUN
     diff = None
